@@ -25,11 +25,11 @@ theorem once {g : Graph} {lim : Option Nat} (hg : GraphOK g) {s : St} (h : Reach
   have hI := (reach_inv hg h).l
   exact ⟨hI.startsNodup, hI.finishesNodup, fun v hv => ⟨hI.startedVerts v hv, (hI.startedWhere v hv).1⟩⟩
 
-/-- **once (exactly), on success**: when `walk` has returned without error, every vertex that is not skipped
-(all of them without roots; the roots and their transitive dependents otherwise) has been entered and has returned;
-with `once` this is "exactly once". -/
+/-- **once (exactly), on success**: when `walk` has returned without error (and the caller did not cancel its own
+context meanwhile), every vertex that is not skipped (all of them without roots; the roots and their transitive
+dependents otherwise) has been entered and has returned; with `once` this is "exactly once". -/
 theorem exactly_once_on_success {g : Graph} {lim : Option Nat} (hg : GraphOK g) {s : St} (h : Reach g lim s)
-    (ht : terminal s) (hok : s.firstErr = none) :
+    (ht : terminal s) (hok : s.firstErr = none) (hext : s.extCancelled = false) :
     ∀ v ∈ g.verts, g.skip v = false → v ∈ starts s.log ∧ v ∈ finishes s.log := by
   have hI := reach_inv hg h
   intro v hv hk
@@ -38,7 +38,7 @@ theorem exactly_once_on_success {g : Graph} {lim : Option Nat} (hg : GraphOK g) 
     have := hI.e.firstErrLast
     rw [hok] at this
     cases hx : s.errExits with
-    | nil => rfl
+    | nil => simp [hext]
     | cons a r =>
       rw [hx] at this
       cases hl : (a :: r).getLast? with
@@ -149,11 +149,12 @@ theorem returns_after_all_visits {g : Graph} {lim : Option Nat} (hg : GraphOK g)
 
 /-- **result = first error**: the value `walk` returns (`firstErr`) is `none` exactly when no failing visit was
 handed to the errgroup, otherwise it is the *first* such visit, and that visit's callback really returned an error;
-at termination `none` means no visitor failed at all. -/
+the group's context is cancelled exactly by such an error or by the caller (`extCancel`); at termination `none` means
+no visitor failed at all. -/
 theorem result_first_error {g : Graph} {lim : Option Nat} (hg : GraphOK g) {s : St} (h : Reach g lim s) :
     s.firstErr = s.errExits.getLast? ∧
     (∀ v, s.firstErr = some v → Ev.finish v true ∈ s.log) ∧
-    (s.cancelled = true ↔ s.firstErr ≠ none) ∧
+    (s.cancelled = true ↔ s.firstErr ≠ none ∨ s.extCancelled = true) ∧
     (terminal s → s.firstErr = none → ∀ v, Ev.finish v true ∉ s.log) := by
   have hI := reach_inv hg h
   have hfl := hI.e.firstErrLast
@@ -221,8 +222,16 @@ example : (runL diamond none (init diamond)
     (fun s => (decide (terminal s), s.firstErr, (starts s.log).reverse))
     = some (true, some 0, [0]) := by decide
 
-/-- the measure of `terminates` on the diamond: no schedule has more than 53 steps (the complete run above has 46) -/
-example : mu diamond (init diamond) = 53 ∧ diamondRun.length = 46 := by decide
+/-- why `exactly_once_on_success` needs `extCancelled = false`: if the caller cancels its own context the coordinator
+may leave, `walk` returns nil, and services 1, 2, 3 have never been visited (outside the property, inside the model) -/
+example : (runL diamond none (init diamond)
+    [.schedNext .M 0, .ready .M, .enter .M, .spawn .M, .schedEnd .M, .extCancel, .cCtxDone,
+     .wBegin 0, .wReturn 0 false, .wDone 0, .wSend 0, .wExit 0]).map
+    (fun s => (decide (terminal s), s.firstErr, s.extCancelled, (starts s.log).reverse))
+    = some (true, none, true, [0]) := by decide
+
+/-- the measure of `terminates` on the diamond: no schedule has more than 54 steps (the complete run above has 46) -/
+example : mu diamond (init diamond) = 54 ∧ diamondRun.length = 46 := by decide
 
 end CV.Trav
 
